@@ -131,7 +131,9 @@ func (x *Exec) staticCall(fr *Frame, ins ssa.Instruction, fn *ssa.Function, bind
 	}
 	nres := fn.Signature.Results().Len()
 	// contract?
-	if ct := x.eng.contractFor(fn); ct != nil {
+	if ct := x.eng.contractFor(fn); ct != nil && !(x.specDepth > 0 && len(ct.Ensures) == 0 && x.target != ct) {
+		// (a safety-only contract says nothing about results: specification code
+		// that calls such a function sees its body instead)
 		if !(x.target == ct && x.curIsHarness() && x.useMode == 0) {
 			return x.useContract(fr, ins, ct, args, st)
 		}
@@ -331,6 +333,20 @@ func (x *Exec) intrinsic(fr *Frame, ins ssa.Instruction, fn *ssa.Function, args 
 		return ts.Quant("exists", bvars, ts.And(ts.And(facts...), body))
 	case "Modifies":
 		a := x.toAddr(args[0], fn.Params[0].Type())
+		if row, ok := x.arrayFieldRow(st, a); ok {
+			at := a.curT.Underlying().(*types.Array)
+			if _, isStruct := at.Elem().Underlying().(*types.Struct); isStruct {
+				unsup("modifies of an embedded array of structs: name the element fields instead")
+			}
+			n, srt := x.elemComp(at.Elem())
+			x.comp(st, n, srt)
+			if x.useMode > 0 {
+				x.pendingRows = append(x.pendingRows, modEntry{rowOf: row, comp: n})
+			} else {
+				x.declaredModifies = append(x.declaredModifies, modEntry{rowOf: row, comp: n})
+			}
+			return nil
+		}
 		if x.useMode > 0 {
 			x.pendingModifies = append(x.pendingModifies, a)
 		} else {
@@ -513,8 +529,8 @@ func (x *Exec) appendBuiltin(fr *Frame, ins ssa.Instruction, c *ssa.CallCommon, 
 	// cases are "old row updated on [off+len, off+newLen)".
 	r := x.allocRef(st, "append")
 	newCap := x.w.Fresh("appcap", SBV(64))
-	x.assume(ts.And(x.w.bvule(newLen, newCap), x.w.bvult(newCap, x.w.lenBound())))
-	x.assume(x.w.bvult(newLen, x.w.lenBound())) // memory is finite
+	x.assume(ts.And(x.w.bvule(newLen, newCap), x.w.bvult(newCap, x.w.existingLenBound())))
+	x.assume(x.w.bvult(newLen, x.w.existingLenBound())) // memory is finite
 	arr := ts.Ite(fits, x.w.sArr(s), r)
 	off := x.w.sOff(s)
 	cp := ts.Ite(fits, oldCap, newCap)
